@@ -221,6 +221,8 @@ CATALOG = {
     # references under a spelling that is not the canonical one: the serialized names of WeldConstraint.Part0 / Part1
     # (the only spelling real files use) and the deprecated alias part1 of JointInstance.Part1
     "WeldConstraint": [("Part0Internal", "Ref"), ("Part1Internal", "Ref")], "Weld": [("part1", "Ref"), ("Part0", "Ref")],
+    # several shared-string properties per document, so that one dictionary entry is used more than once
+    "UnionOperation": [("MeshData2", "SharedString"), ("ChildData2", "SharedString")], "WrapTarget": [("HSRData", "SharedString")],
 }
 
 
@@ -279,7 +281,8 @@ def generate(rng, ep):
                 pv = {"t": "Ref", "v": tgt}
                 w = (lambda tgt: lambda nm: ['<Ref name="%s">%s</Ref>' % (nm, "null" if tgt == 0 else refs[tgt - 1])])(tgt)
             elif ty == "SharedString":
-                data = rng.choice([b"", b"shared payload", bytes(range(40))])
+                # half of the time a value already in the dictionary: one entry, several users
+                data = rng.choice(list(shared.values())) if shared and rng.random() < 0.5 else rng.choice([b"", b"shared payload", bytes(range(40)), b"\x00\xff second"])
                 key = base64.b64encode(("k%d" % len(data)).encode().ljust(16, b"_")).decode()
                 shared[key] = data
                 pv = {"t": "SharedString", "v": list(data)}
